@@ -273,6 +273,35 @@ class InterpNF:
         self.subject, self.headers, self.values, self.loop, self.why = subject, headers, values, loop, why
 
 
+def _as_literal_replace(I: Interp, t):
+    """``re.sub(re.escape(K), f, text)`` with ``f`` a function that answers the same V for every match and no flags / count
+    is ``text.replace(K, V)``: every non-overlapping occurrence of the literal K, left to right, replaced by V as it is."""
+    if not (isinstance(t, tuple) and t and t[0] == "call" and t[1] == "re.sub" and len(t[2]) == 3 and not t[3]):
+        return t
+    pat, repl, subject = t[2]
+    if pat[0] == "call" and pat[1] == "re.compile" and len(pat[2]) == 1 and not pat[3]:
+        pat = pat[2][0]
+    if not (pat[0] == "call" and pat[1] == "re.escape" and len(pat[2]) == 1):
+        return t
+    if not (isinstance(repl, tuple) and repl and repl[0] == "lambda" and len(repl) >= 4):
+        return t
+    try:
+        from ..absint import State
+        fi_c, _env = I.closures[repl[3]]
+        if len(fi_c.node.args.args) - len(fi_c.node.args.defaults) != 1:
+            return t
+        probe = ("cbarg", repl[3], 0)
+        sub: list = []
+        v = I.apply(State(), repl, [probe], {}, None, sub)
+    except AnalysisError:
+        raise
+    except Exception:
+        return t
+    if nf.contains(v, lambda x: x == probe) or not Interp._effect_free(sub):
+        return t
+    return ("call", ".replace", (subject, pat[2][0], v), ())
+
+
 def match_interp(I: Interp, t) -> InterpNF | None:
     """Recognise the value of an interpolated string; returns InterpNF (why != None explains a deviation)."""
     subj_guard = None
@@ -308,6 +337,7 @@ def match_interp(I: Interp, t) -> InterpNF | None:
     if info.get("conds"):
         r.why = "header loop is filtered"
         return r
+    upd = _as_literal_replace(I, upd)
     if not (upd[0] == "call" and upd[1] == ".replace" and len(upd[2]) == 3 and upd[2][0] == phi):
         r.why = f"substitution primitive is not literal str.replace on the running text: {fmt(upd, I)}"
         return r
